@@ -433,3 +433,40 @@ func VerifC08_ConvertBackKeepsLockup() {
 	zz.Reach("converted")
 	zz.Reach("end")
 }
+
+// VerifC01_StoredTimesAreUTC: the start time of a vesting account is printed into the create_clawback_vesting_account event
+// (Time.String()) and handed to clients by queries; a value in the node's own time zone renders differently on replicas
+// in different zones although the stored bytes agree. Whatever path applied the schedule (new account, conversion of a
+// plain account, merge into a vesting account), the stored start time is a UTC value.
+func VerifC01_StoredTimesAreUTC() {
+	now := zz.AnyInt64In("now", 0, c09MaxStart+3*c09MaxLen)
+	k, ctx, ak, _ := c09World(now)
+	base := authtypes.NewBaseAccountWithAddress(c09Acc)
+	kind := zz.Choose("target", 3) // 0: no account yet, 1: plain account, 2: vesting account (merge)
+	switch kind {
+	case 1:
+		ak.accs[string(c09Acc)] = &ethtypes.EthAccount{BaseAccount: base, CodeHash: common.Hash{}.Hex()}
+	case 2:
+		va, _ := c09Account("acc", 1, 1)
+		va.BaseAccount = base
+		ak.accs[string(c09Acc)] = va
+	}
+	s1 := zz.AnyInt64In("grant.start", 0, c09MaxStart)
+	glk := c09Periods("grant.lock", 1)
+	gvs := c09Periods("grant.vest", 1)
+	g := glk.TotalAmount()
+	zz.Assume(gvs.TotalAmount().AmountOf("aISLM").Equal(g.AmountOf("aISLM")))
+	zz.Assume(g.AmountOf("aISLM").IsPositive())
+	// the message carries a UTC time (protobuf timestamps decode to UTC)
+	_, _, _, err := k.ApplyVestingSchedule(ctx, c09Funder, c09Acc, g, time.Unix(s1, 0).UTC(), glk, gvs, kind == 2)
+	if err != nil {
+		zz.Reach("?refused")
+		return
+	}
+	after, ok := ak.accs[string(c09Acc)].(*types.ClawbackVestingAccount)
+	zz.Assert(ok, "the account is a clawback vesting account afterwards")
+	if ok {
+		zz.Assert(!zz.IsLocalTime(after.StartTime), "the stored start time is a UTC value, not one in the node's own time zone (it is printed into events)")
+	}
+	zz.Reach("end")
+}
